@@ -25,7 +25,7 @@ RULE = (
 )
 ASSUMPTIONS = ["non-negative integer labels (negative labels are outside every caller's domain)"]
 BUDGET = {
-    "quick": {"examples": 3200, "shards": 8, "min_nontrivial": 600, "atheris_runs": 0},
+    "quick": {"examples": 9600, "shards": 16, "min_nontrivial": 600, "atheris_runs": 0},
     "thorough": {"examples": 64000, "shards": 16, "min_nontrivial": 10000, "atheris_runs": 400000, "max_wall": 3000},
 }
 
